@@ -89,6 +89,7 @@ type GenesisSpec struct {
 	Customize func(*consensus.AppState)
 	ChainID   string
 	Fork      int64 // Frankenstein block (0 = disabled)
+	MaxGas    int64 // consensus parameter Block.MaxGas (0 = Tendermint's default, -1: no limit)
 }
 
 func (g *GenesisSpec) AppState() consensus.AppState {
@@ -188,6 +189,9 @@ func genesisDoc(spec *GenesisSpec) *config.GenesisDoc {
 	must(err)
 	gen.GenesisTime = time.Unix(1600000000, 0).UTC()
 	gen.ForkParams = &config.ForkParams{FrankensteinBlock: spec.Fork}
+	if spec.MaxGas != 0 && gen.ConsensusParams != nil {
+		gen.ConsensusParams.Block.MaxGas = spec.MaxGas
+	}
 	return gen
 }
 
